@@ -120,7 +120,8 @@ enum Op {
     SetLimit(usize),
     ClearLimit,
     /// OPT with this payload size and raw options (code, length).
-    Opt(u16, Vec<(u16, usize)>),
+    /// (UDP size, options as (code, length), OPT header settings in order)
+    Opt(u16, Vec<(u16, usize)>, Vec<HdrSet>),
     /// The sink gets more room (as after the caller grew the buffer).
     Heal(usize),
 }
@@ -281,11 +282,36 @@ enum Comp {
     Hash,
 }
 
+/// One setter of the OPT header, called inside the `opt()` closure.
+#[derive(Clone, Copy, Debug, PartialEq)]
+enum HdrSet {
+    /// The 12-bit extended rcode (low four bits go to the message header).
+    Rcode(u16),
+    Version(u8),
+    Do(bool),
+}
+
+/// (UDP size, options, full 12-bit rcode, version, DO)
+type OptView = (u16, Vec<(u16, Vec<u8>)>, u16, u8, bool);
+
+/// An OPT view with the option data abbreviated (for messages).
+fn brief(o: &Option<OptView>) -> String {
+    match o {
+        None => "no OPT".into(),
+        Some((size, opts, rcode, version, dnssec_ok)) => {
+            let sum = |d: &Vec<u8>| d.iter().fold(0u32, |a, b| a.wrapping_mul(31).wrapping_add(*b as u32));
+            format!("OPT(size {}, rcode {}, version {}, DO {}, options {:?})", size, rcode, version, dnssec_ok, opts.iter().map(|(c, d)| format!("{}:{}o#{:x}", c, d.len(), sum(d))).collect::<Vec<_>>())
+        }
+    }
+}
+
 /// What the model expects the message to contain.
 #[derive(Clone, Default, Debug, PartialEq)]
 struct Model {
     items: Vec<(u8, Item)>, // (section, item)
-    opt: Option<(u16, Vec<(u16, Vec<u8>)>)>,
+    opt: Option<OptView>,
+    /// The message header's rcode bits (survive rewinds).
+    rcode_low: u16,
 }
 
 fn expected_view(pool: &[String], m: &Model) -> (Vec<(String, Rtype, u16)>, Vec<(u8, String, Rtype, u32, String)>) {
@@ -304,7 +330,7 @@ fn expected_view(pool: &[String], m: &Model) -> (Vec<(String, Rtype, u16)>, Vec<
 }
 
 #[allow(clippy::type_complexity)]
-fn actual_view(bytes: &[u8]) -> Result<(Vec<(String, Rtype, u16)>, Vec<(u8, String, Rtype, u32, String)>, Option<(u16, Vec<(u16, Vec<u8>)>)>, [u16; 4]), String> {
+fn actual_view(bytes: &[u8]) -> Result<(Vec<(String, Rtype, u16)>, Vec<(u8, String, Rtype, u32, String)>, Option<OptView>, [u16; 4], u16), String> {
     let v = dns::view(bytes).ok_or("message does not parse")?;
     let dot = |s: &str| if s.ends_with('.') { s.to_ascii_lowercase() } else { format!("{}.", s.to_ascii_lowercase()) };
     let qs = v.questions.iter().map(|(n, t, c)| (dot(n), *t, c.to_int())).collect();
@@ -341,7 +367,7 @@ fn actual_view(bytes: &[u8]) -> Result<(Vec<(String, Rtype, u16)>, Vec<(u8, Stri
     // The OPT record with its options as raw (code, data) pairs.
     let opt = match v.opt {
         None => None,
-        Some((size, _, _)) => {
+        Some((size, dnssec_ok, version)) => {
             let m = domain::base::Message::from_octets(bytes).map_err(|_| "message does not parse")?;
             let o = m.opt().ok_or("OPT record vanished")?;
             let mut opts = Vec::new();
@@ -349,10 +375,10 @@ fn actual_view(bytes: &[u8]) -> Result<(Vec<(String, Rtype, u16)>, Vec<(u8, Stri
                 let u = item.map_err(|_| "OPT option does not parse")?;
                 opts.push((u.code().to_int(), u.data().to_vec()));
             }
-            Some((size, opts))
+            Some((size, opts, v.full_rcode, version, dnssec_ok))
         }
     };
-    Ok((qs, rs, opt, counts))
+    Ok((qs, rs, opt, counts, v.rcode.to_int() as u16))
 }
 
 /// Execute `ops` on a builder over a sink of capacity `cap`; check after
@@ -474,18 +500,39 @@ fn execute<T: Composer>(pool: &[String], ops: &[Op], ctl: &SinkCtl, stream: bool
             Op::SetLimit(l) => st.mb().set_push_limit(*l),
             Op::ClearLimit => st.mb().clear_push_limit(),
             Op::Heal(extra) => ctl.cap.set(ctl.cap.get() + extra),
-            Op::Opt(size, opts) => {
+            Op::Opt(size, opts, hdr) => {
                 if let Stage::Ad(b) = &mut st {
                     if model.opt.is_none() {
                         let datas: Vec<(u16, Vec<u8>)> = opts.iter().map(|(c, l)| (*c, (0..*l).map(|i| (i as u8).wrapping_mul(7).wrapping_add(*c as u8)).collect())).collect();
                         match b.opt(|o| {
                             o.set_udp_payload_size(*size);
+                            for h in hdr {
+                                match h {
+                                    HdrSet::Rcode(r) => o.set_rcode(domain::base::iana::OptRcode::masked_from_int(*r)),
+                                    HdrSet::Version(v) => o.set_version(*v),
+                                    HdrSet::Do(d) => o.set_dnssec_ok(*d),
+                                }
+                            }
                             for (c, d) in &datas {
                                 o.push_raw_option(domain::base::iana::OptionCode::from_int(*c), d.len() as u16, |t| t.append_slice(d))?;
                             }
                             Ok(())
                         }) {
-                            Ok(()) => model.opt = Some((*size, datas)),
+                            Ok(()) => {
+                                let mut ext = 0u16;
+                                let (mut version, mut dnssec_ok) = (0u8, false);
+                                for h in hdr {
+                                    match h {
+                                        HdrSet::Rcode(r) => {
+                                            ext = r >> 4;
+                                            model.rcode_low = r & 0xf;
+                                        }
+                                        HdrSet::Version(v) => version = *v,
+                                        HdrSet::Do(d) => dnssec_ok = *d,
+                                    }
+                                }
+                                model.opt = Some((*size, datas, (ext << 4) | model.rcode_low, version, dnssec_ok));
+                            }
                             Err(_) => failed = true,
                         }
                     }
@@ -532,7 +579,11 @@ fn execute<T: Composer>(pool: &[String], ops: &[Op], ctl: &SinkCtl, stream: bool
                     sim::violation(P, "parse-back", format!("unparseable/{}", label), format!("after op #{} {:?} (failed={}, cap {}, limit {:?}): {}", i, op, failed, cap, limit_at, e));
                     return None;
                 }
-                Ok((aq, ar, aopt, counts)) => {
+                Ok((aq, ar, aopt, counts, hdr_rcode)) => {
+                    if hdr_rcode != model.rcode_low {
+                        sim::violation(P, "parse-back", format!("header-rcode/{}", label), format!("after op #{} {:?} (failed={}): the header's rcode reads {}, last successfully set {}", i, op, failed, hdr_rcode, model.rcode_low));
+                        return None;
+                    }
                     let want_counts = [
                         eq.len() as u16,
                         er.iter().filter(|r| r.0 == 1).count() as u16,
@@ -549,7 +600,7 @@ fn execute<T: Composer>(pool: &[String], ops: &[Op], ctl: &SinkCtl, stream: bool
                         return None;
                     }
                     if aq != eq || ar != er || aopt != model.opt {
-                        let bad = ar.iter().zip(er.iter()).find(|(a, b)| a != b).map(|(a, b)| format!("read {:?}, pushed {:?}", a, b)).unwrap_or_else(|| format!("questions {:?} vs {:?}, opt {:?} vs {:?}, {} vs {} records", aq, eq, aopt, model.opt, ar.len(), er.len()));
+                        let bad = ar.iter().zip(er.iter()).find(|(a, b)| a != b).map(|(a, b)| format!("read {:?}, pushed {:?}", a, b)).unwrap_or_else(|| format!("questions {:?} vs {:?}, opt {} vs {}, {} vs {} records", aq, eq, brief(&aopt), brief(&model.opt), ar.len(), er.len()));
                         let name_issue = ar.iter().zip(er.iter()).any(|(a, b)| a != b && a.2 == b.2 && a.3 == b.3);
                         sim::violation(
                             P,
@@ -607,7 +658,14 @@ fn gen_ops(pool: &[String], size_class: u64) -> Vec<Op> {
             5 if section == 3 => {
                 let n = sim::draw("ops.opt_n_options", 4) as usize;
                 let opts: Vec<(u16, usize)> = (0..n).map(|i| (65_001 + i as u16, *sim::pick("ops.opt_option_len", &[0usize, 1, 8, 40, 300]))).collect();
-                ops.push(Op::Opt(*sim::pick("ops.opt_size", &[1232u16, 512, 4096]), opts));
+                let hdr: Vec<HdrSet> = (0..sim::draw("ops.opt_n_hdr", 4))
+                    .map(|_| match sim::draw("ops.opt_hdr", 4) {
+                        0 | 3 => HdrSet::Rcode(*sim::pick("ops.opt_rcode", &[0u16, 5, 16, 23, 0xABC])),
+                        1 => HdrSet::Version(*sim::pick("ops.opt_version", &[0u8, 1, 255])),
+                        _ => HdrSet::Do(sim::chance("ops.opt_do", 1, 2)),
+                    })
+                    .collect();
+                ops.push(Op::Opt(*sim::pick("ops.opt_size", &[1232u16, 512, 4096]), opts, hdr));
             }
             6 => ops.push(Op::Heal(1 + sim::draw("ops.heal", 300) as usize)),
             _ => {
